@@ -59,14 +59,14 @@ pub struct Cfg {
     pub funding_pct: u32,
 }
 
-fn h(e: &Env, a: &[u8; 32], b: &[u8; 32]) -> [u8; 32] {
+pub(crate) fn h(e: &Env, a: &[u8; 32], b: &[u8; 32]) -> [u8; 32] {
     let (x, y) = if a > b { (b, a) } else { (a, b) };
     let mut v = Bytes::from_array(e, x);
     v.append(&Bytes::from_array(e, y));
     e.crypto().sha256(&v).to_array()
 }
 /// reference tree: adjacent pairs, an odd node is promoted; returns (root, proofs)
-fn build(e: &Env, leaves: &[[u8; 32]]) -> ([u8; 32], std::vec::Vec<std::vec::Vec<[u8; 32]>>) {
+pub(crate) fn build(e: &Env, leaves: &[[u8; 32]]) -> ([u8; 32], std::vec::Vec<std::vec::Vec<[u8; 32]>>) {
     let n = leaves.len();
     let mut proofs = vec![vec![]; n];
     let mut level: std::vec::Vec<([u8; 32], std::vec::Vec<usize>)> = leaves.iter().enumerate().map(|(i, l)| (*l, vec![i])).collect();
